@@ -420,7 +420,7 @@ pub fn short_row(s: u8, d1: u8, d2: u8) -> Vec<i64> {
     decoy(&mut acc, 0xf8, d2, d1);
     let again_s = obs(&mut acc, &st);
     flags2[6] = (again_r == vec_r && again_f == vec_r && again_s == vec_s) as i64;
-    flags2[7] = flag(&mut acc, || RawShortMessage::try_from(t) == RawShortMessage::from_bytes(t) && raw.clone() == raw);
+    flags2[7] = flag(&mut acc, || RawShortMessage::try_from(t).ok() == RawShortMessage::from_bytes(t).ok() && raw.clone() == raw);
     row.push(acc.allocs as i64);
     row.extend_from_slice(&vec_r);
     row.extend_from_slice(&vec_s);
